@@ -12,6 +12,10 @@ for f in sorted(glob.glob(os.path.join(ROOT, 'seeded', '*', 'meta.json'))):
     det = ('own check: exit %d' % w[own]) + (f' ({labels})' if labels else '')
     if m.get('note') and w[own] != 1:
         det += ' -- ' + m['note']
+    elif m.get('note'):
+        det += ' -- ' + m['note']
+    for oc, hit in (m.get('detected_by_other_check') or {}).items():
+        det += f'; {oc} check: exit {1 if hit else 0}'
     if others:
         det += '; also ' + ', '.join(others)
     rows.append((m['id'], (m.get('summary') or '')[:150].replace('|', '/').replace('\n', ' '), det))
